@@ -5,6 +5,10 @@ package main
 
 import (
 	"bufio"
+	"bytes"
+	"os/exec"
+	"regexp"
+	"strconv"
 	"encoding/hex"
 	"flag"
 	"fmt"
@@ -110,4 +114,81 @@ func main() {
 		os.Exit(2)
 	}
 	e(*seed, *tier, flag.Args()[1:])
+}
+
+// runContained runs an engine's cases in child processes so that a crash of the code under test
+// (a panic in a server goroutine kills the whole process) is contained: the crashing case is
+// reported as an oracle line and the run continues with the next case.
+func runContained(engine string, seed uint64, tier string, ncases int, name func(int) string) {
+	from := 0
+	tmp, err := os.CreateTemp("", "verif-child-*.txt")
+	if err != nil {
+		panic(err)
+	}
+	tmp.Close()
+	defer os.Remove(tmp.Name())
+	for from < ncases {
+		cmd := exec.Command(os.Args[0], "-seed", strconv.FormatUint(seed, 10), "-tier", tier, "-out", tmp.Name(), engine, "-child", "-from", strconv.Itoa(from))
+		var stderr bytes.Buffer
+		cmd.Stderr = &stderr
+		cmd.Stdout = &stderr
+		runErr := cmd.Run()
+		data, _ := os.ReadFile(tmp.Name())
+		lines := strings.Split(string(data), "\n")
+		// index of the last line that closes a case
+		lastEnd := -1
+		for i, l := range lines {
+			if (strings.HasPrefix(l, "sfin ") || strings.HasPrefix(l, "end ")) {
+				lastEnd = i
+			}
+		}
+		if runErr == nil {
+			for _, l := range lines {
+				if l != "" {
+					emit("%s", l)
+				}
+			}
+			return
+		}
+		for i := 0; i <= lastEnd; i++ {
+			if lines[i] != "" {
+				emit("%s", lines[i])
+			}
+		}
+		crashed := from
+		var partial []string
+		for i := lastEnd + 1; i < len(lines); i++ {
+			l := lines[i]
+			if (strings.HasPrefix(l, "sbegin ") || strings.HasPrefix(l, "begin ")) {
+				f := strings.Fields(l)
+				if len(f) > 1 {
+					if n, err := strconv.Atoi(f[1]); err == nil {
+						crashed = n
+					}
+				}
+			}
+			if strings.HasPrefix(l, "oracle ") {
+				emit("%s", l)
+			} else if l != "" {
+				partial = append(partial, l)
+			}
+		}
+		site := "unknown"
+		st := stderr.String()
+		if m := regexp.MustCompile(`github\.com/anacrolix/dht/v2[^\s(]*\.([A-Za-z0-9_*().]+)\(`).FindStringSubmatch(st); m != nil {
+			site = strings.NewReplacer("(", "", ")", "", "*", "").Replace(m[1])
+		}
+		first := ""
+		for _, l := range strings.Split(st, "\n") {
+			if strings.HasPrefix(l, "panic:") || strings.HasPrefix(l, "fatal error:") {
+				first = l
+				break
+			}
+		}
+		if len(partial) > 6 {
+			partial = partial[len(partial)-6:]
+		}
+		emit("oracle C01 process-died:%s case=%d scenario=%s %q last-lines=%q", site, crashed, name(crashed), first, strings.Join(partial, " || "))
+		from = crashed + 1
+	}
 }
